@@ -163,7 +163,7 @@ def plan(tier, seed):
         for ka in (False, True):
             for R in ((1, 2) if tier == "quick" else (0, 1, 2, 3)):
                 specs.append({"mode": "two", "transport": transport, "ka": ka, "R": R, "depth": 4 if tier == "quick" else 5})
-    nrand = 16 if tier == "quick" else 64
+    nrand = 16 if tier == "quick" else 128
     for i in range(nrand):
         specs.append({"mode": "random", "seed": f"{seed}:C06:{i}", "n": 700 if tier == "quick" else 6000})
     return specs
